@@ -128,6 +128,7 @@ def coq_properties(prop, log):
     # forbidden constructs anywhere in the development
     bad = []
     for f in sorted(glob.glob(os.path.join(COQ, "*.v"))):
+        if f.endswith("_wip.v"): continue      # scratch files of work in progress: git-ignored, never built, never imported
         txt = re.sub(r"\(\*.*?\*\)", "", open(f).read(), flags=re.S)
         for i, l in enumerate(txt.split("\n")):
             if FORBIDDEN.search(l):
@@ -139,7 +140,7 @@ def coq_properties(prop, log):
 # ---------------------------------------------------------------- builds
 def mk_coqproject():
     """_CoqProject lists every coq/*.v (Extract_*.v excluded: they are run from the build dir)."""
-    files = sorted(os.path.basename(f) for f in glob.glob(os.path.join(COQ, "*.v")) if not os.path.basename(f).startswith("Extract_"))
+    files = sorted(os.path.basename(f) for f in glob.glob(os.path.join(COQ, "*.v")) if not os.path.basename(f).startswith("Extract_") and not f.endswith("_wip.v"))
     txt = "-Q . Amgcl\n" + "\n".join(files) + "\n"
     p = os.path.join(COQ, "_CoqProject")
     if not os.path.exists(p) or open(p).read() != txt:
@@ -348,6 +349,10 @@ def main():
     os.makedirs(os.path.join(VERIF, "evidence"), exist_ok=True)
     os.makedirs(os.path.join(VERIF, "replay"), exist_ok=True)
     evpath = os.path.join(VERIF, "evidence", prop + ".json")
+    if os.path.realpath(REPO) != "/repo":
+        # a run against a scratch copy (tools/try_patch.sh) must not overwrite the committed evidence
+        os.makedirs(os.path.join(BUILD, "evidence_scratch"), exist_ok=True)
+        evpath = os.path.join(BUILD, "evidence_scratch", prop + ".json")
 
     violations = []   # (kind, detail dict)
     known_lines = []
